@@ -277,6 +277,9 @@ def scripted_peer(v):
         'extra transform': lambda trs: trs + [{'type': 1, 'id': 12, 'keylen': 128}],
         'foreign transform': lambda trs: [{'type': 1, 'id': 3, 'keylen': None} if t['type'] == 1 else t for t in trs] if any(t['type'] == 1 for t in trs) else trs + [{'type': 3, 'id': 1, 'keylen': None}],
         'foreign integrity': lambda trs: [{'type': 3, 'id': 2, 'keylen': None} if t['type'] == 3 else t for t in trs],
+        # "exactly one transform of each type the local policy requires": an answer that leaves a required type out is drawn from the offer - and incomplete
+        'missing dh transform': lambda trs: [t for t in trs if t['type'] != 4] if any(t['type'] == 4 for t in trs) else trs + [{'type': 1, 'id': 12, 'keylen': 128}],
+        'missing integrity transform': lambda trs: [t for t in trs if t['type'] != 3],
     }
     # (a) IKE_SA_INIT response (clear)
     for name, f in tamperers.items():
@@ -423,7 +426,8 @@ def raw_child_offers(v, vec, tier, rnd):
                 continue
             a, b = w.sas('A')[0], w.sas('B')[0]
             real = W.dec_message(bytes(w.acquire('A', sport=0, dport=0)), probes.keys_of(a.my_crypto))
-            groups = [t['id'] for t in c['sa'][0]['transforms'] if t['type'] == 4]
+            # (a well-formed requester: its KE payload is in the first DH group that any of its proposals offers)
+            groups = [t['id'] for p in c['sa'] for t in p['transforms'] if t['type'] == 4]
             ke_group = groups[0] if groups and groups[0] in (19, 20, 21) else None
             props = [{'num': p['num'], 'proto': p['proto'], 'spi': bytes([0x0c, 0x0d, 0x0e, p['num']]),
                       'transforms': [{'type': t['type'], 'id': t['id'], 'keylen': t['keylen'] or None} for t in p['transforms']]} for p in c['sa']]
